@@ -614,6 +614,13 @@ func minInt(a, b int) int {
 // discrepancies.
 func (s *Sess) exec(op *Op) *Res {
 	s.step++
+	if !s.m.AllowNoSpc && s.srv.N != nil && s.srv.N.VerifFsState().Balloc.NumFree() < 80 {
+		// the workload itself has (nearly) filled the disk: from here on
+		// allocating requests may be refused, WRITEs may be short and holes
+		// may not be materialisable by READ - the reference follows the
+		// replies in these respects, exactly as in the nearly-full profiles
+		s.m.AllowNoSpc = true
+	}
 	ac := s.argClass(op)
 	var freeB, freeI uint64
 	var fsBefore *FsckRes
@@ -948,6 +955,11 @@ func runSeq(p Profile, seed uint64, cas int) *SeqRes {
 		}
 		if p.TwinEvery > 0 {
 			s.twinCompare("at the end")
+		}
+	}
+	if debugOn {
+		for _, l := range res.OpLog {
+			fmt.Println("DEBUG oplog", l)
 		}
 	}
 	res.NoSpcFollowed = s.m.NoSpcFollowed
